@@ -95,6 +95,14 @@ NUMERIC_RADII = [5, 0.001, 2000, model.DIAMETER_KM + 0.1,
 TWINS = [3.00005, 3.00003]
 TWIN_OF = {model.spelled(repr(km), unit): km
            for km in TWINS for unit in model.UNIT_KM}
+# the same radii in other number spellings (sign, exponent, bare leading
+# decimal point, no blank before the unit) for three units
+for _km in TWINS:
+    for _unit in ("km", "m", "miles"):
+        _number = model.spelled(repr(_km), _unit).partition(" ")[0]
+        for _form in model.number_forms(_number):
+            TWIN_OF[_form + " " + _unit] = _km
+        TWIN_OF[_number + _unit] = _km
 
 DIST = model.distance_matrices(*zip(*BUILD_POS), *zip(*QUERY_POS))
 
